@@ -89,7 +89,9 @@ def render(case, idx, rng):
     tp = rng.choice(TYPE_PARAMS)
     generic = shape in ("named", "named_attrs", "enum") and rng.random() < 0.34
     hostile = rng.random() < 0.5
-    g = "<%s>" % tp if generic else ""
+    # half of the generic receivers also carry a lifetime with the most common name there is
+    lifetime = generic and rng.random() < 0.5
+    g = ("<'a, %s>" % tp if lifetime else "<%s>" % tp) if generic else ""
     bare = "R%d" % idx
     name = bare + g
     helpers = []
@@ -169,6 +171,9 @@ def render(case, idx, rng):
             # the parameter is used by an optional member, so that the derive has to bound it
             fields.append("    pub %s: %s<%s>," % (pool[6], OPTION, tp))
             fnames.append(pool[6])
+        if lifetime:
+            fields.append("    #[darling(skip)] pub %s: ::core::marker::PhantomData<&'a ()>," % pool[7])
+            fnames.append(pool[7])
         if shape == "named_attrs":
             fields.append("    pub attrs: %s<::syn::Attribute>," % VEC)
             fnames.append("attrs")
@@ -218,6 +223,8 @@ def render(case, idx, rng):
             vs.append("    %s%s%s," % (("#[darling(%s)] " % ", ".join(vo)) if vo else "", vn[vi], sfx))
         if generic:
             vs.append("    %s(%s)," % (vn[2], tp))
+        if lifetime:
+            vs.append("    #[darling(skip)] %s(::core::marker::PhantomData<&'a ()>)," % vn[3])
         derives = "#[derive(Debug, Clone, ::darling::%s)]" % d
         body = "pub enum %s {\n%s\n}" % (name, "\n".join(vs))
         if needs_default:
